@@ -345,10 +345,15 @@ def run(rep, tier, seed, model_ok=True, effort=1, for_c01=False):
         if code == 0:
             rep.sample(dict(args=" ".join(args), new=new))
     if model_ok:
-        bad, errs = common.coq_eval("c05", HDR, "list N * list N * flags * option (option Z) * cli_res",
-                                    "fun '(o, p, fl, d, e) => eqb_cli_res (test_cmd_v2 (%s) o p fl d None) e" % cz(today), items, shard=120)
+        # What C05's theorems need from the tie is the INCREMENT: whenever the implementation announces a version, the model's incr gives that
+        # very version for the same old version, pattern, flags and date; whenever it refuses, the model's whole command refuses too.  Whether the
+        # gate accepts a given result is C01's subject (a gate that lets an equal version through changes no part of it).
+        chk = ("fun '(o, p, fl, d, e) => match e with "
+               "| Exit0 new _ => match incr (%s) o p fl (match d with Some (Some n) => n | _ => (%s) end) with INew n => eqb_str n new | _ => false end "
+               "| ExitErr => eqb_cli_res (test_cmd_v2 (%s) o p fl d None) ExitErr end" % (cz(today), cz(today), cz(today)))
+        bad, errs = common.coq_eval("c05", HDR, "list N * list N * flags * option (option Z) * cli_res", chk, items, shard=120)
         for i in bad:
-            rep.mismatch("bumpver test: model differs from implementation", input=meta[i])
+            rep.mismatch("bumpver test: the model's increment differs from the implementation", input=meta[i])
         rep.corr_errors += errs
 
 
